@@ -244,4 +244,75 @@ def check(ctx, repo, T, rel, cls, fn, construct, rule='R00'):
                 '(numpy Generator.permuted): the entries of one row no '
                 'longer belong to the same draw / individual; rows are kept '
                 'together by `permutation` / `shuffle`' % norm_stmt(c)[:60])
+    # ---- L46 -------------------------------------------------------------
+    # gradient methods: a component whose plain score is added to the
+    # returned score must also be asked for its gradient
+    if fn.name in S1_NAMES:
+        score_names = set()
+        for r_ in ast.walk(fn):
+            if isinstance(r_, ast.Return) and isinstance(
+                    r_.value, ast.Tuple) and len(r_.value.elts) >= 2:
+                for x in ast.walk(r_.value.elts[0]):
+                    if isinstance(x, ast.Name):
+                        score_names.add(x.id)
+
+        def comp_call(c):
+            """-> (receiver text, kind) for calls on a component object"""
+            if not isinstance(c, ast.Call):
+                return None
+            f = c.func
+            r0 = _recv_text(f)
+            if r0 and r0.startswith('self._'):
+                return r0, 'plain'           # self._component(parameters)
+            if isinstance(f, ast.Attribute):
+                rr = _recv_text(f.value) or (
+                    U(f.value) if isinstance(f.value, ast.Subscript)
+                    else None)
+                if rr and rr != 'self':
+                    if f.attr in PLAIN_SCORE:
+                        return rr, 'plain'
+                    if f.attr in S1_NAMES:
+                        return rr, 's1'
+            return None
+        plain, s1 = {}, set()
+        for a in ast.walk(fn):
+            tgt = None
+            if isinstance(a, ast.Assign) and len(a.targets) == 1 \
+                    and isinstance(a.targets[0], ast.Name):
+                tgt = a.targets[0].id
+            elif isinstance(a, ast.AugAssign) and isinstance(
+                    a.target, ast.Name):
+                tgt = a.target.id
+            for c in ast.walk(a) if isinstance(
+                    a, (ast.Assign, ast.AugAssign, ast.Return, ast.Expr)) \
+                    else ():
+                cc = comp_call(c)
+                if not cc:
+                    continue
+                if cc[1] == 's1':
+                    s1.add(cc[0])
+                elif (tgt in score_names) or isinstance(a, ast.Return):
+                    # only callables that are chi / pints components: a
+                    # field typed by the constructor, or one that is asked
+                    # for evaluateS1 anywhere in the class
+                    plain.setdefault(cc[0], c)
+        for rr, c in sorted(plain.items()):
+            if rr in s1:
+                continue
+            if rr.startswith('self.') and cls:
+                # a method of the class itself is a kernel, not a component
+                if repo.resolve(cls, rr[5:])[1] is not None:
+                    continue
+            bad += 1
+            ctx.violation(
+                rule, repo.loc(c, cls, fn.name), construct,
+                'L46 score term without gradient %s' % rr,
+                '%s adds the plain score `%s` of the component `%s` to the '
+                'score it returns but never asks that component for its '
+                'sensitivities: the returned gradient is not the derivative '
+                'of the returned score' % (construct, norm_stmt(c)[:50], rr))
     return bad
+
+
+S1_NAMES = ('evaluateS1', 'compute_sensitivities')
+PLAIN_SCORE = ('__call__', 'compute_log_likelihood')
